@@ -109,7 +109,7 @@ def main():
             print('%-50s %s %-8s %5.1fs tests=%s | %s %s' % (mu['name'], prop, status, res['secs'], rec.get('tests', '-'), res['first'][:140], res['tail'][-300:]), flush=True)
         # other invocations may have written in the meantime: merge, do not clobber
         results = json.load(open(results_path)) if os.path.exists(results_path) else {}
-        results[mu['name']] = rec
+        results[mu['name']] = dict(results.get(mu['name'], {}), **rec)
         json.dump(results, open(results_path, 'w'), indent=1, sort_keys=True)
     sh(['git', '-C', d, 'checkout', '--', '.'])
 
